@@ -1,1 +1,26 @@
-// harness bodies for h2 src/frame/priority.rs (compiled in-crate as `verif_h`, feature "verif")
+// harness bodies for h2 src/frame/priority.rs
+use super::*;
+
+/// C08/C09.frame[priority]: PRIORITY payloads never panic; wrong length and
+/// self-dependency are errors; everything else is accepted (and later ignored).
+pub fn c09_frame_priority() {
+    let flags: u8 = kani::any();
+    let sid: u32 = kani::any();
+    kani::assume(sid <= 0x7fff_ffff);
+    let bytes: [u8; 7] = kani::any();
+    let n: usize = kani::any();
+    kani::assume(n <= 7);
+    let head = Head::new(Kind::Priority, flags, StreamId::from(sid));
+    let r = Priority::load(head, &bytes[..n]);
+    let dep = u32::from_be_bytes([bytes[0], bytes[1], bytes[2], bytes[3]]) & 0x7fff_ffff;
+    match &r {
+        Ok(_) => assert!(n == 5 && dep != sid, "bad PRIORITY accepted"),
+        Err(e) => {
+            assert!(n != 5 || dep == sid, "legal PRIORITY rejected");
+            assert!(*e == if n != 5 { Error::InvalidPayloadLength } else { Error::InvalidDependencyId });
+        }
+    }
+    kani::cover!(r.is_ok(), "ok");
+    kani::cover!(matches!(r, Err(Error::InvalidDependencyId)), "self_dependency");
+    kani::cover!(true, "end");
+}
